@@ -216,9 +216,20 @@ func runShutdown(t *testing.T, p *Plan) *Outcome {
 			// every node is told to shut down at the same instant; each runs main's sequence
 			left := len(w.nodes)
 			done := make(chan struct{}, left)
-			for _, n := range w.nodes {
-				n := n
-				go func() { n.shutdown(); done <- struct{}{} }()
+			// (a microsecond apart, in an order taken from the seed: which of two
+			// nodes closes its listeners first is then the plan's choice, not the Go
+			// scheduler's)
+			order := append([]*bNode(nil), w.nodes...)
+			sort.Slice(order, func(i, j int) bool {
+				return H(p.Seed, "shutdown-order", order[i].idx) < H(p.Seed, "shutdown-order", order[j].idx)
+			})
+			for rank, n := range order {
+				rank, n := rank, n
+				go func() {
+					time.Sleep(time.Duration(rank) * time.Microsecond)
+					n.shutdown()
+					done <- struct{}{}
+				}()
 			}
 			go func() {
 				for i := 0; i < left; i++ {
@@ -351,6 +362,18 @@ func runAgentShutdown(t *testing.T, p *Plan) *Outcome {
 		hr := &health.MockHealthReporter{}
 		hr.SetAlive(true)
 		a := agent.VerifNewAgent(clk, agent.Logger{Logger: &logger.NullLogger{}}, cfg, mm, hr, &fakeOpAMP{w: w}, 100*time.Millisecond, us(p.N["usage_every_us"]))
+		// the agent's goroutines create their tickers: before the driver looks for
+		// its first event
+		drv.Settle()
+		// A usage tick that falls into a send in progress waits with the driver
+		// until the send is over instead of in the ticker's one-slot channel: the
+		// report loop would otherwise come back from a send cut short by Stop with
+		// both its context cancelled and a tick buffered, and which of the two a Go
+		// select takes is not the simulator's to decide (it decides only whether a
+		// report nobody waits for is started after Stop).
+		drv.TickGate = func(tk *SimTicker) bool {
+			return !strings.Contains(tk.Key, "reportUsagePeriodically") || !w.inFlight
+		}
 		for _, op := range p.Ops {
 			op := op
 			drv.At(us(op.At), "grow", fmt.Sprintf("op/%d", op.ID), func() { mm.Count("bytes_received_traces", op.N) })
